@@ -140,6 +140,9 @@ class NameSanitizer:
             # fallback: split on non-alphanumerics
             words = re.split(r"\W+", name)
         module = "_".join(word.lower() for word in words if word)
+        if module and not module.isidentifier() and not module[0].isdigit():
+            # The fallback split keeps every \w character, but some of them ("¾", "²") cannot appear in an identifier
+            module = "".join(ch if ("a" + ch).isidentifier() else "_" for ch in module).strip("_")
         if not module:  # e.g. name was empty or consisted only of symbols such as "$" or "{ "
             module = "unnamed"
         # If it starts with a digit, prefix with underscore
